@@ -236,6 +236,21 @@ def digest(d):
     return sorted(out)
 
 
+N_BIG = [0]
+
+
+def big_language_trace(tid, pcfg, supported, meta, desc):
+    """the language is too large to enumerate: membership of every supported training password is decided by matching it
+    against the loaded grammar (expand.grammar_derives); the probability sum is not computed"""
+    N_BIG[0] += 1
+    I = {}
+    ident = lambda s: I.setdefault(s, len(I) + 1)
+    derived = [p for p in supported if expand.grammar_derives(pcfg, p)]
+    meta[tid] = dict(desc, supported=len(supported), language='too large to enumerate: membership by matching against the grammar',
+                     missing=[p for p in supported if p not in set(derived)][:5])
+    return {'tid': tid, 'kind': 'lang', 'supported': [ident(p) for p in supported], 'guesses': [ident(p) for p in derived] + [0], 'sum_ok': True}
+
+
 def lang_trace(tid, res, pws, meta, desc):
     rec = segment.Recorder(pws)
     supported = []
@@ -255,7 +270,7 @@ def lang_trace(tid, res, pws, meta, desc):
         if hist.get('raised'):
             meta[tid] = dict(desc, supported=len(supported), error='the guesser raised: %s' % hist.get('raised'), missing=supported[:5])
             return {'tid': tid, 'kind': 'lang', 'supported': [1], 'guesses': [0], 'sum_ok': False}
-        return None
+        return big_language_trace(tid, pcfg, supported, meta, desc)
     for it, _ in hist['sessions'][0]['ev']:
         pt = it['pt']
         lines, n = expand.expand_real(pcfg, pt)
@@ -266,7 +281,7 @@ def lang_trace(tid, res, pws, meta, desc):
         n_guess += n
         guesses.update(lines)
         if n_guess > 400000:
-            return None
+            return big_language_trace(tid, pcfg, supported, meta, desc)
     if not supported and not guesses:
         return None     # nothing but unsupported structures: the non-Markov language is empty, C03 says nothing about it
     I = {}
@@ -465,7 +480,7 @@ def main(pid, tier, seed):
            'rule': 'C06: one trace = one saved list of one real training against the tallies captured from the trainer memory, the structure '
                    'list coverage clauses, or two trainings of the same input; C03: one trace = one real training + the real guesser run to '
                    'exhaustion with --skip_brute; non-trivial = list with more than one record',
-           'trainings': n_train, 'command_line_trainings_compared_with_run_trainer': n_cli, 'trainings_not_completed_with_tiny_alphabet_retried_with_default': n_alpha_retry, 'loader_insertion': ins, 'composition': comp, 'trace_validation': st, 'exhaustive': False, 'binding_selftest': selftest,
+           'trainings': n_train, 'languages_too_large_to_enumerate_decided_by_matching': N_BIG[0], 'command_line_trainings_compared_with_run_trainer': n_cli, 'trainings_not_completed_with_tiny_alphabet_retried_with_default': n_alpha_retry, 'loader_insertion': ins, 'composition': comp, 'trace_validation': st, 'exhaustive': False, 'binding_selftest': selftest,
            'known_findings_reproduced': n_known, 'violation_histogram': verdict.histogram()}
     core.write_evidence(pid, tier, seed, 'model_checking', cov, time.time() - t0, violations=n_viol,
                         assumptions=['TLC', 'written probability converted to an integer count c = round(p*total) and p == c/total checked in binary64 '
